@@ -108,7 +108,7 @@ Fixpoint irun (c : cleanup) (s : tstate) (ops : list iop) : tstate :=
   end.
 
 Definition outcome_of_pout (p : pout) : outcome :=
-  match p with PRet v => Ok v | PRaise e | PBase e => Err e end.
+  match p with PRet v => Ok v | PRaise c e => Err (gen_exn c e) | PBase e => Err e | PDouble => Err E_ALREADY end.
 
 (* the scheduler drives the started body: at each yield the dependency is computed (which runs the
    inner operations); a task that was completed meanwhile is popped and its body never resumes; a
